@@ -83,7 +83,7 @@ def _case(draw):
     if draw(st.integers(0, 24)) == 0:
         return {"long": draw(_long()), "cycles": 1, "superset": False}
     sc = draw(S.screen_case(min_rows=1, max_rows=12, obs=S.any_obs))
-    case = {"screen": sc, "cycles": draw(st.integers(1, 3)), "superset": draw(st.booleans()), "occupied": draw(st.booleans())}
+    case = {"screen": sc, "cycles": draw(st.integers(1, 3)), "superset": draw(st.booleans()), "occupied": draw(st.booleans()), "synonym": draw(st.integers(0, 3)) == 0}
     if case["superset"]:
         case["extra"] = draw(S.screen_case(arity=sc["arity"], control=sc["control"], min_rows=1, max_rows=6, obs=S.any_obs))["rows"]
     return case
@@ -181,6 +181,24 @@ def check_case(case):
         strict = len(sup.treatment_mapping[0]) > len(own.treatment_mapping[0]) or len(sup.sample_mapping[0]) > len(own.sample_mapping[0])
     else:
         s0 = S.build_screen(sc)
+    synonym = False
+    if case.get("synonym") and "long" not in case and sc["rows"]:
+        # a supplied sample mapping that lists a synonym: two names, one id (the constructor accepts it; the names are data and
+        # must survive persistence as they are)
+        sn, si = [np.asarray(x) for x in s0.sample_mapping]
+        x = sc["rows"][0]["s"]
+        new = x + "~syn"
+        if new not in set(str(v) for v in sn):
+            rows2 = [dict(r, s=new) if (r["s"] == x and i % 2 == 1) else r for i, r in enumerate(sc["rows"])]
+            if len(rows2) == 1:
+                rows2 = [dict(rows2[0], s=new)]
+            xid = int(si[[str(v) for v in sn].index(x)])
+            try:
+                s_syn = S.build_screen(dict(sc, rows=rows2), treatment_mapping=s0.treatment_mapping, sample_mapping=(np.append(sn.astype(str), new), np.append(si, xid)))
+            except ValueError:
+                s_syn = None  # such a mapping refused: nothing to persist
+            if s_syn is not None and any(r["s"] == new for r in rows2):
+                s0, synonym = s_syn, True
     cur = s0
     paths = []
     try:
@@ -250,6 +268,8 @@ def check_case(case):
     labels = ["cycles=%d" % case["cycles"]]
     if "long" in case:
         labels.append("rows>=%d" % (2 ** int(np.log2(len(sc["rows"])))))
+    if synonym:
+        labels.append("synonym-in-sample-mapping")
     if strict:
         labels.append("strict-superset-mapping")
     if exotic:
